@@ -145,7 +145,7 @@ def gen_scenario(seed, profile=None):
             "env": env, "steps": steps}, rng
 
 
-FAULT_KINDS = ("trace", "mem", "io", "short", "subproc", "stream", "tmpfile", "cancel")
+FAULT_KINDS = ("trace", "mem", "intr", "io", "short", "subproc", "stream", "tmpfile", "cancel")
 
 
 def attach_faults(scn, events, rng, p_fault=0.5, enabled=None):
@@ -164,6 +164,8 @@ def attach_faults(scn, events, rng, p_fault=0.5, enabled=None):
                 cands.append(("trace", 45))
             if "mem" in enabled:
                 cands.append(("mem", 8))
+            if "intr" in enabled:
+                cands.append(("intr", 8))
         if ext.get("io"):
             if "io" in enabled:
                 cands.append(("io", 70))
@@ -180,7 +182,7 @@ def attach_faults(scn, events, rng, p_fault=0.5, enabled=None):
         if not cands:
             continue
         kind = _wchoice(rng, cands)
-        if kind in ("trace", "mem"):
+        if kind in ("trace", "mem", "intr"):
             gran = "line" if rng.random() < 0.3 else "call"
             if gran == "line":
                 # extent was measured in calls; lines are ~8x denser
